@@ -5,9 +5,10 @@ import Gaftools.Gen.Collector
 
 `Gen/Collector.lean` is regenerated from `gaftools/cli/realign.py` on every run: the four process predicates (`all_are_alive`,
 `one_is_alive`, `all_exited`, `one_failed`) as folds over what the parent sees of a process (`is_alive()`, `exitcode`), both
-copies of the `except queue.Empty` handler as a decision over the predicates' answers, the sentinel test and the loop condition
-of both collector loops.  The theorems below say that these are exactly what the transition system of `Model/Realign.lean`
-does in its `pCheck` and `pGet` steps, so the protocol theorems of C11 / C13 are theorems about the decisions the code takes
+copies of the `except queue.Empty` handler as a decision PROGRAM (one poll per predicate call, in source order), the sentinel
+test and the loop condition of both collector loops.  The theorems below say that these are exactly what the transition system
+of `Model/Realign.lean` runs: its handler is the translated one (so a change of the ORDER of the polls breaks the equality, not
+only a change of the decision) and its `pGet` step is the translated sentinel test, so the protocol theorems of C11 / C13 are theorems about the decisions the code takes
 now.  A change of one of these decisions breaks the corresponding equality.
 -/
 namespace Gaftools.TieA
@@ -86,27 +87,23 @@ theorem oneFailed_gen (s : St) : oneFailed (procs s) = anyFailed s := by
     rw [Bool.eq_iff_iff]
     simp only [bne_iff_ne, ne_eq, Option.some.injEq]
 
-/-- the parent's next program counter for an action of the handler; `none`: the model has no such transition -/
-def pcOfAct : Act → Option PC
-  | .exit1 => some .failed
-  | .cont => some .atGet
-  | _ => none
+/-- the in-loop handler, as translated from the source (one poll per predicate call, in source order, `and` / `or` / `not` as
+    short-circuit evaluation), IS the handler whose polls the transition system interleaves with the workers' moves -/
+theorem handlerMain_eq : handlerMain = refHandler := by first | rfl | decide
 
-/-- `pCheck` is the in-loop handler applied to the predicates' answers -/
-theorem pCheck_genMain (s : St) (h : s.pc = .afterEmpty) :
-    (pcOfAct (onEmptyMain (oneFailed (procs s)) (oneIsAlive (procs s)) (allExited (procs s)) (allAreAlive (procs s)))).map
-      (fun pc => { s with pc := pc }) = some (step s .pCheck) := by
-  rw [oneFailed_gen, oneIsAlive_gen, allExited_gen]
-  simp only [step, h, onEmptyMain]
-  cases anyFailed s <;> cases anyRunning s <;> cases allExitedZero s <;> simp [pcOfAct]
+/-- … and so is the handler of the leftover loop -/
+theorem handlerLeft_eq : handlerLeft = refHandler := by first | rfl | decide
 
-/-- … and the leftover loop's handler is the same decision -/
-theorem pCheck_genLeft (s : St) (h : s.pc = .afterEmpty) :
-    (pcOfAct (onEmptyLeft (oneFailed (procs s)) (oneIsAlive (procs s)) (allExited (procs s)) (allAreAlive (procs s)))).map
-      (fun pc => { s with pc := pc }) = some (step s .pCheck) := by
-  rw [oneFailed_gen, oneIsAlive_gen, allExited_gen]
-  simp only [step, h, onEmptyLeft]
-  cases anyFailed s <;> cases anyRunning s <;> cases allExitedZero s <;> simp [pcOfAct]
+/-- the steps of the model are the steps under the translated handlers -/
+theorem step_genMain (s : St) (e : Ev) : step s e = stepH handlerMain s e := by rw [handlerMain_eq]; rfl
+theorem step_genLeft (s : St) (e : Ev) : step s e = stepH handlerLeft s e := by rw [handlerLeft_eq]; rfl
+
+/-- every poll of the model evaluates the translated predicate on what the parent sees of the processes at that moment -/
+theorem evalPred_gen (s : St) :
+    evalPred s .failed = oneFailed (procs s) ∧ evalPred s .alive = oneIsAlive (procs s) ∧
+    evalPred s .exited = allExited (procs s) ∧ evalPred s .allAlive = allAreAlive (procs s) := by
+  refine ⟨(oneFailed_gen s).symm, (oneIsAlive_gen s).symm, (allExited_gen s).symm, ?_⟩
+  rw [allAreAlive_gen]; rfl
 
 /-- what the code does with a received object, as far as the model can express it (`none`: it cannot — e.g. a sentinel put
     into the priority queue) -/
